@@ -20,6 +20,9 @@ type PBKVS struct {
 	NR, NC    int
 	Explore   bool
 	Replicas  []*env.Actor
+	// CrashP0, if set, gives the probability that a mayFail branch of replica i is refused
+	// now (default 0.75): a scenario may concentrate crashes on chosen situations
+	CrashP0 func(replica int) float64
 	Clients   []*env.Actor
 	// MayFailP0: probability that a mayFail branch resolves to "skip" is left to the
 	// stream (either is a plain choice); MaxFail bounds the crashes by refusing further
@@ -87,7 +90,11 @@ func NewPBKVS(wd *env.World, nr, nc int, explore bool, input []tla.Value) *PBKVS
 							alive++
 						}
 					}
-					if alive <= 1 || wd.W.ChooseP(sim.KFault, 4, 0.75) == 0 {
+					p0 := 0.75
+					if p.CrashP0 != nil {
+						p0 = p.CrashP0(int(idx[0].AsTuple().Get(0).AsNumber()))
+					}
+					if alive <= 1 || wd.W.ChooseP(sim.KFault, 4, p0) == 0 {
 						return env.Abort
 					}
 				}
